@@ -55,7 +55,7 @@ SURF_Z = 2.0
 BOX_TOP = 2.0  # BoxRegion centred at z = 1.5 with height 1
 
 QUICK_SOURCE_PROGRAMS = 24
-THOROUGH_SOURCE_PROGRAMS = 400
+THOROUGH_SOURCE_PROGRAMS = 240
 
 
 def rad(t):
@@ -192,9 +192,26 @@ def s_offsetalong(d, v):
     return Spec("OffsetAlongSpec(%s, %s)" % (d, v), "offset along %s by %s" % (d, v))
 
 
-def new_expr(cls, specs):
-    api = "new(%s, [%s])" % (cls, ", ".join(s.api for s in specs))
-    src = "new %s %s" % (cls, ", ".join(s.src for s in specs))
+class Bundle:
+    """Properties common to many new objects: explicit `with` specifiers on the api route, a
+    Scenic class with those property defaults on the source route (keeps the text short: the
+    PEG parser costs about 1 ms per token)."""
+
+    def __init__(self, name, base, specs):
+        self.name = name
+        self.base = base
+        self.specs = specs  # list of (property, value text)
+
+    def class_text(self):
+        return "class %s(%s):\n" % (self.name, self.base) + "".join(
+            "    %s: %s\n" % (p, v) for p, v in self.specs
+        )
+
+
+def new_expr(cls, specs, bundle=None):
+    extra = [] if bundle is None else [s_with(p, v) for p, v in bundle.specs]
+    api = "new(%s, [%s])" % (cls, ", ".join(s.api for s in list(specs) + extra))
+    src = "new %s %s" % (cls if bundle is None else bundle.name, ", ".join(s.src for s in specs))
     return api, src
 
 
@@ -316,6 +333,9 @@ class Builder:
         self.n_tilt = tilted(it["npar"], it["nown"]) or it["npar"] != (0, 0, 0)
         self.np_nonglobal = tuple(it["npar"]) != (0, 0, 0)
         self.f_tilt = tilted(it["fo"])
+        # global parent and own pitch beyond +-90 degrees: (yaw, pitch, roll) is then not the
+        # canonical Euler triple of the orientation
+        self.flipped_global = tuple(it["xpar"]) == (0, 0, 0) and math.cos(self.xown[1]) < -1e-9
         self.cases = []
         self.unspecified = {}
         self.skipped = {}
@@ -340,6 +360,8 @@ class Builder:
                 ]
             if ct is not None:
                 specs.append(s_with("contactTolerance", repr(ct)))
+                # a compiled scenario rejects statically intersecting objects; poses overlap freely here
+                specs.append(s_with("allowCollisions", "True"))
             return specs
 
         pre = []  # (api statement, source statement)
@@ -347,6 +369,8 @@ class Builder:
         def define(name, api, src):
             pre.append(("%s = %s" % (name, api), "%s = %s" % (name, src)))
 
+        for name, val in (("T", TPOS), ("Q", QPOS), ("VO", VOFF), ("VO2", VOFF2)):
+            define(name, lit(val), lit(val))
         define("X", *new_expr("Object", pose_specs(self.xpos, self.xpar, self.xown, self.xdims, X_CT)))
         define("XP", *new_expr("OrientedPoint", pose_specs(self.xpos, self.xpar, self.xown)))
         define("E", *new_expr("Object", pose_specs(EPOS, self.epar, self.eown, (1.0, 1.0, 1.0), X_CT)))
@@ -366,6 +390,15 @@ class Builder:
             define(name, e, e)
         b = "BoxRegion(dimensions=(40, 40, 1), position=(0, 0, 1.5))"
         define("BOX", b, b)
+        d = self.ndims
+        dim = [("width", repr(d[0])), ("length", repr(d[1])), ("height", repr(d[2])), ("contactTolerance", repr(N_CT)), ("allowCollisions", "True")]
+        pose = [("parentOrientation", "NP"), ("yaw", repr(self.nown[0])), ("pitch", repr(self.nown[1])), ("roll", repr(self.nown[2]))]
+        self.AO = Bundle("AO", "Object", [("allowCollisions", "True")])
+        self.ND = Bundle("ND", "Object", dim)
+        self.NDP = Bundle("NDP", "Object", dim + pose)
+        self.QP = Bundle("QP", "OrientedPoint", [("parentOrientation", "NP")])
+        for bd in (self.AO, self.ND, self.NDP, self.QP):
+            pre.append((None, bd.class_text().rstrip("\n")))
         return pre
 
     # -- helpers -------------------------------------------------------------
@@ -377,23 +410,6 @@ class Builder:
 
     def skip(self, what, n=1):
         self.skipped[what] = self.skipped.get(what, 0) + n
-
-    def n_dim_specs(self):
-        d = self.ndims
-        return [
-            s_with("width", repr(d[0])),
-            s_with("length", repr(d[1])),
-            s_with("height", repr(d[2])),
-            s_with("contactTolerance", repr(N_CT)),
-        ]
-
-    def n_pose_specs(self):
-        return [
-            s_with("parentOrientation", "NP"),
-            s_with("yaw", repr(self.nown[0])),
-            s_with("pitch", repr(self.nown[1])),
-            s_with("roll", repr(self.nown[2])),
-        ]
 
     # -- all constructs --------------------------------------------------------
     def build(self):
@@ -416,7 +432,7 @@ class Builder:
                 # reference = Object
                 gap = N_CT / 2 if d is None else d
                 exp = g.directional_position(direction, self.xpos, self.XM, self.xdims, self.ndims, gap)
-                api, src = new_expr("Object", [s_dir(direction, "X", dtxt)] + self.n_dim_specs())
+                api, src = new_expr("Object", [s_dir(direction, "X", dtxt)], self.ND)
                 self.add(
                     "%s:object:%s" % (tag, dk),
                     direction,
@@ -434,7 +450,7 @@ class Builder:
                 # reference = OrientedPoint (a box of size 0; no contact tolerance involved)
                 gap = 0.0 if d is None else d
                 exp = g.directional_position(direction, self.xpos, self.XM, (0, 0, 0), self.ndims, gap)
-                api, src = new_expr("Object", [s_dir(direction, "XP", dtxt)] + self.n_dim_specs())
+                api, src = new_expr("Object", [s_dir(direction, "XP", dtxt)], self.ND)
                 self.add(
                     "%s:opoint:%s" % (tag, dk),
                     direction,
@@ -454,9 +470,7 @@ class Builder:
                 off = [0.0, 0.0, 0.0]
                 off[axis] = sign * (gap + self.ndims[axis] / 2)
                 exp = g.to_global(TPOS, self.NM, tuple(off))
-                api, src = new_expr(
-                    "Object", [s_dir(direction, lit(TPOS), dtxt)] + self.n_dim_specs() + self.n_pose_specs()
-                )
+                api, src = new_expr("Object", [s_dir(direction, "T", dtxt)], self.NDP)
                 self.add(
                     "%s:vector:%s" % (tag, dk),
                     direction,
@@ -510,11 +524,11 @@ class Builder:
     # -- facing family ---------------------------------------------------------
     def build_facing(self):
         g = fr
-        base = [s_at(lit(QPOS)), s_with("parentOrientation", "NP")]
+        base = [s_at("Q")]
         nt = self.np_nonglobal or tilted(self.item["npar"])
 
         def facing_case(key, arg, target, nontrivial):
-            api, src = new_expr("OrientedPoint", base + [s_simple("Facing", "facing", arg)])
+            api, src = new_expr("OrientedPoint", base + [s_simple("Facing", "facing", arg)], self.QP)
             self.add(
                 "facing:" + key,
                 "facing",
@@ -543,12 +557,12 @@ class Builder:
             nt or self.f_tilt,
         )
         self.cases[-1].src = new_expr(
-            "OrientedPoint", base + [Spec("", "facing (%r relative to FLD)" % self.h1)]
+            "OrientedPoint", base + [Spec("", "facing (%r relative to FLD)" % self.h1)], self.QP
         )[1]
 
         strict = yaw_only(self.item["npar"])
         for away in (False, True):
-            for kind, targ, tpos in (("vector", lit(TPOS), TPOS), ("object", "X", self.xpos)):
+            for kind, targ, tpos in (("vector", "T", TPOS), ("object", "X", self.xpos)):
                 d = g.vsub(tpos, QPOS)
                 if away:
                     d = g.vscale(d, -1.0)
@@ -557,7 +571,7 @@ class Builder:
                 name = "facing-away-from" if away else "facing-toward"
                 func = "FacingAwayFrom" if away else "FacingToward"
                 syntax = "facing away from" if away else "facing toward"
-                api, src = new_expr("OrientedPoint", base + [s_simple(func, syntax, targ)])
+                api, src = new_expr("OrientedPoint", base + [s_simple(func, syntax, targ)], self.QP)
                 loc = g.to_local(QPOS, self.NPM, aim)
                 if math.hypot(loc[0], loc[1]) < 1e-6:
                     self.skip("facing-toward:direction-along-parent-z")
@@ -582,7 +596,7 @@ class Builder:
                 name = "facing-directly-away-from" if away else "facing-directly-toward"
                 func = "FacingDirectlyAwayFrom" if away else "FacingDirectlyToward"
                 syntax = "facing directly away from" if away else "facing directly toward"
-                api, src = new_expr("OrientedPoint", base + [s_simple(func, syntax, targ)])
+                api, src = new_expr("OrientedPoint", base + [s_simple(func, syntax, targ)], self.QP)
                 self.add(
                     "%s:%s" % (name, kind),
                     syntax,
@@ -599,8 +613,8 @@ class Builder:
                 )
 
         # apparently facing H [from V]
-        for kind, frm, fpos in (("vector", lit(TPOS), TPOS), ("object", "X", self.xpos), ("ego", None, EPOS)):
-            api, src = new_expr("OrientedPoint", base + [s_appfacing(repr(self.h2), frm)])
+        for kind, frm, fpos in (("vector", "T", TPOS), ("object", "X", self.xpos), ("ego", None, EPOS)):
+            api, src = new_expr("OrientedPoint", base + [s_appfacing(repr(self.h2), frm)], self.QP)
             self.add(
                 "apparently-facing:" + kind,
                 "apparently facing",
@@ -707,7 +721,7 @@ class Builder:
     # -- beyond / offset / following ------------------------------------------
     def build_position_specifiers(self):
         g = fr
-        for okind, off in (("scalar", 2.0), ("vector", VOFF)):
+        for okind, off, otxt in (("scalar", 2.0, "2.0"), ("vector", VOFF, "VO")):
             offv = (0.0, off, 0.0) if okind == "scalar" else off
             for kind, frm, fpos, fM in (
                 ("vector", lit(self.xpos), self.xpos, None),
@@ -720,7 +734,7 @@ class Builder:
                     continue
                 exp = g.beyond_position(TPOS, offv, fpos)
                 expP = fM if fM is not None else g.I3
-                api, src = new_expr("Object", [s_beyond(lit(TPOS), lit(off), frm)])
+                api, src = new_expr("Object", [s_beyond("T", otxt, frm)], self.AO)
                 self.add(
                     "beyond:%s:%s" % (okind, kind),
                     "beyond",
@@ -735,8 +749,8 @@ class Builder:
                 )
 
         # offset by (specifier): local frame of ego
-        for key, v in (("a", VOFF2), ("b", VOFF)):
-            api, src = new_expr("Object", [Spec("OffsetBy(%s)" % lit(v), "offset by %s" % lit(v))])
+        for key, v, vt in (("a", VOFF2, "VO2"), ("b", VOFF, "VO")):
+            api, src = new_expr("Object", [Spec("OffsetBy(%s)" % vt, "offset by %s" % vt)], self.AO)
             self.add(
                 "offset-by:" + key,
                 "offset by",
@@ -756,7 +770,7 @@ class Builder:
             ("orientation", "FO", self.FOM, True),
             ("field", "FLD", self.FOM, True),
         ):
-            api, src = new_expr("Object", [s_offsetalong(dtxt, lit(VOFF2))])
+            api, src = new_expr("Object", [s_offsetalong(dtxt, "VO2")], self.AO)
             self.add(
                 "offset-along-spec:" + key,
                 "offset along (specifier)",
@@ -770,9 +784,9 @@ class Builder:
                 nt,
             )
         # following (constant field)
-        for key, frm, start in (("from", lit(TPOS), TPOS), ("ego", None, EPOS)):
+        for key, frm, start in (("from", "T", TPOS), ("ego", None, EPOS)):
             for dist in (3.0, 12.5):
-                api, src = new_expr("Object", [s_following("FLD", repr(dist), frm)])
+                api, src = new_expr("Object", [s_following("FLD", repr(dist), frm)], self.AO)
                 self.add(
                     "following:%s:%s" % (key, dist),
                     "following",
@@ -805,11 +819,11 @@ class Builder:
         g = fr
         h = self.ndims[2]
         for key, bo in (("default-base", None), ("custom-base", BASEOFF)):
-            specs = [Spec("On(%s)" % lit(TPOS), "on %s" % lit(TPOS))] + self.n_dim_specs() + self.n_pose_specs()
+            specs = [Spec("On(T)", "on T")]
             if bo is not None:
                 specs.append(s_with("baseOffset", lit(bo)))
             base = bo if bo is not None else (0.0, 0.0, -h / 2)
-            api, src = new_expr("Object", specs)
+            api, src = new_expr("Object", specs, self.NDP)
             self.add(
                 "on:vector:" + key,
                 "on",
@@ -829,7 +843,7 @@ class Builder:
         p_below = (QPOS[0], QPOS[1], -7.0)
         for key, p in (("above", p_above), ("below", p_below)):
             # flat surface whose preferred orientation is a pure yaw: every reading agrees
-            api, src = new_expr("Object", [s_at(lit(p)), Spec("On(SURFY)", "on SURFY")] + self.n_dim_specs())
+            api, src = new_expr("Object", [s_at(lit(p)), Spec("On(SURFY)", "on SURFY")], self.ND)
             self.add(
                 "on:surface-yaw:" + key,
                 "on",
@@ -843,7 +857,7 @@ class Builder:
                 True,
             )
             # tilted preferred orientation: only parentOrientation is stated unambiguously
-            api, src = new_expr("Object", [s_at(lit(p)), Spec("On(SURFT)", "on SURFT")] + self.n_dim_specs())
+            api, src = new_expr("Object", [s_at(lit(p)), Spec("On(SURFT)", "on SURFT")], self.ND)
             self.add(
                 "on:surface-tilted:" + key,
                 "on",
@@ -859,7 +873,7 @@ class Builder:
             if self.f_tilt:
                 self.unspec("on:position-on-tilted-preferred-orientation")
         # volume without preferred orientation, projected straight down
-        api, src = new_expr("Object", [s_at(lit(p_above)), Spec("On(BOX)", "on BOX")] + self.n_dim_specs())
+        api, src = new_expr("Object", [s_at(lit(p_above)), Spec("On(BOX)", "on BOX")], self.ND)
         self.add(
             "on:volume:above",
             "on",
@@ -910,16 +924,16 @@ class Builder:
         self.add(
             "relative-to:vector-vector",
             "relative to",
-            "RelativeTo(%s, %s)" % (lit(v), lit(TPOS)),
-            "%s relative to %s" % (lit(v), lit(TPOS)),
+            "RelativeTo(VO, T)",
+            "VO relative to T",
             "vector",
             [chk_vec("relative-to:vector-vector", g.vadd(v, TPOS), "sum")],
             False,
         )
         for key, api, src in (
-            ("vector-object", "RelativeTo(%s, X)" % lit(v), "%s relative to X" % lit(v)),
+            ("vector-object", "RelativeTo(VO, X)", "VO relative to X"),
             ("vector-opoint", "RelativeTo(%s, XP)" % lit(v), "%s relative to XP" % lit(v)),
-            ("object-offset-by", "RelativeTo(X, %s)" % lit(v), "X offset by %s" % lit(v)),
+            ("object-offset-by", "RelativeTo(X, VO)", "X offset by VO"),
             ("opoint-offset-by", "RelativeTo(XP, %s)" % lit(v), "XP offset by %s" % lit(v)),
         ):
             self.add(
@@ -937,8 +951,8 @@ class Builder:
             "relative to",
             "RelativeTo(%r, %r)" % (self.h1, self.h2),
             "%r relative to %r" % (self.h1, self.h2),
-            "scalar",
-            [chk_angle("relative-to:heading-heading", self.h1 + self.h2, "sum of headings")],
+            "direction",
+            [chk_mat("relative-to:heading-heading", "value", g.rot_z(self.h1 + self.h2), "sum of headings (as heading or orientation)")],
             False,
         )
         for key, a, b, exp in (
@@ -963,8 +977,8 @@ class Builder:
             self.add(
                 "offset-along-op:" + key,
                 "offset along (operator)",
-                "OffsetAlong(%s, %s, %s)" % (lit(TPOS), dtxt, lit(w)),
-                "%s offset along %s by %s" % (lit(TPOS), dtxt, lit(w)),
+                "OffsetAlong(T, %s, VO2)" % dtxt,
+                "T offset along %s by VO2" % dtxt,
                 "vector",
                 [chk_vec("offset-along-op:" + key, g.to_global(TPOS, dM, w), "offset position")],
                 True,
@@ -973,10 +987,10 @@ class Builder:
     def build_scalar_operators(self):
         g = fr
         pairs = (
-            ("vector-vector", lit(TPOS), TPOS, lit(QPOS), QPOS),
-            ("object-vector", "X", self.xpos, lit(TPOS), TPOS),
+            ("vector-vector", "T", TPOS, lit(QPOS), QPOS),
+            ("object-vector", "X", self.xpos, "T", TPOS),
             ("opoint-object", "XP", self.xpos, "E", EPOS),
-            ("ego-default", None, EPOS, lit(TPOS), TPOS),
+            ("ego-default", None, EPOS, "T", TPOS),
             ("ego-object", None, EPOS, "X", self.xpos),
         )
         for key, a, apos, b, bpos in pairs:
@@ -1038,7 +1052,7 @@ class Builder:
             )
         # apparent heading of OP [from V]
         for key, a, b, bpos in (
-            ("object-vector", "X", lit(TPOS), TPOS),
+            ("object-vector", "X", "T", TPOS),
             ("opoint-vector", "XP", lit(QPOS), QPOS),
             ("object-ego", "X", None, EPOS),
             ("opoint-object", "XP", "E", EPOS),
@@ -1055,9 +1069,25 @@ class Builder:
                 api, src = "ApparentHeading(%s, Y=%s)" % (a, b), "apparent heading of %s from %s" % (a, b)
             self.add(
                 "apparent-heading:" + key, "apparent heading", api, src, "scalar",
-                [chk_angle("apparent-heading", g.apparent_heading(self.xpos, xh, bpos), "heading w.r.t. the line of sight")],
+                [self.chk_apparent_heading(xh, bpos)],
                 self.x_tilt,
             )
+
+
+    def chk_apparent_heading(self, xh, bpos):
+        exp = fr.apparent_heading(self.xpos, xh, bpos)
+
+        def f(obs):
+            if fr.angdiff(obs["value"], exp) > TOL:
+                sig = "apparent-heading"
+                if self.flipped_global and fr.angdiff(obs["value"], fr.apparent_heading(self.xpos, self.xown[0], bpos)) <= TOL:
+                    sig = "apparent-heading:heading-not-orientation-yaw-when-pitch-beyond-90"
+                return (
+                    sig,
+                    "heading w.r.t. the line of sight: expected %s (mod 2pi), observed %s" % (fmt(exp), fmt(obs["value"])),
+                )
+
+        return f
 
 
 # ------------------------------------------------------------------ observation
@@ -1079,6 +1109,10 @@ def observe(value, read):
         return {"value": tuple(float(c) for c in value)}
     if read == "ori":
         return {"value": fr.quat_matrix(tuple(float(c) for c in value.q))}
+    if read == "direction":  # a heading or an orientation (the reference allows either)
+        if hasattr(value, "q"):
+            return {"value": fr.quat_matrix(tuple(float(c) for c in value.q))}
+        return {"value": fr.rot_z(float(value))}
     raise HarnessError("unknown read kind " + read)
 
 
@@ -1122,7 +1156,8 @@ def run_api(b):
     out = {}
     try:
         for api, _ in b.prelude:
-            exec(api, ns)
+            if api is not None:
+                exec(api, ns)
         for c in b.cases:
             try:
                 out[c.key] = ("ok", observe(eval(c.api, ns), c.read))
@@ -1132,6 +1167,7 @@ def run_api(b):
                 out[c.key] = ("exc", "%s: %s" % (type(e).__name__, e))
     finally:
         veneer.currentScenario = old
+    out["__ns__"] = ns
     return out
 
 
@@ -1139,13 +1175,13 @@ def program_text(b):
     lines = ["import trimesh"]
     for _, src in b.prelude:
         lines.append(src)
-    n = 0
+    names = []
     for c in b.cases:
         if c.api_only:
             continue
-        lines.append("c%d = %s" % (n, c.src))
-        lines.append("param c%d = c%d" % (n, n))
-        n += 1
+        names.append("c%d" % len(names))
+        lines.append("%s = %s" % (names[-1], c.src))
+    lines.append("param results = [%s]" % ", ".join(names))
     return "\n".join(lines) + "\n"
 
 
@@ -1156,6 +1192,7 @@ def run_source(b):
     out = {}
     try:
         scenario = scenic.scenarioFromString(text, mode2D=False)
+        values = list(scenario.params["results"])
     except Exception as e:
         return None, "%s: %s" % (type(e).__name__, e), text
     n = 0
@@ -1163,7 +1200,7 @@ def run_source(b):
         if c.api_only:
             continue
         try:
-            out[c.key] = ("ok", observe(scenario.params["c%d" % n], c.read))
+            out[c.key] = ("ok", observe(values[n], c.read))
         except Exception as e:
             out[c.key] = ("exc", "%s: %s" % (type(e).__name__, e))
         n += 1
@@ -1250,13 +1287,16 @@ def entity_laws(b, ns):
     if not g.is_gimbal(b.XM):
         n += 1
         if g.angdiff(float(X.heading), g.yaw_of(b.XM)) > TOL:
-            fails.append(("entity:heading", "entity:heading", "heading: expected global yaw %s, observed %s" % (fmt(g.yaw_of(b.XM)), fmt(float(X.heading)))))
+            sig = "entity:heading"
+            if b.flipped_global and g.angdiff(float(X.heading), b.xown[0]) <= TOL:
+                sig = "entity:heading:not-orientation-yaw-when-pitch-beyond-90"
+            fails.append((sig, sig, "heading: expected the yaw of the global orientation %s, observed %s" % (fmt(g.yaw_of(b.XM)), fmt(float(X.heading)))))
     n += 1
-    exp = sorted(g.corners(b.xpos, b.XM, b.xdims))
-    got = sorted(tuple(float(c) for c in p) for p in X.corners)
-    if len(got) != 8 or max(g.vdist(a, c) for a, c in zip(exp, got)) > 1e-8:
-        # (sorted matching: tolerance slightly looser than TOL only to make the lexicographic
-        # pairing robust)
+    exp = g.corners(b.xpos, b.XM, b.xdims)
+    got = [tuple(float(c) for c in p) for p in X.corners]
+    # the 8 corners as a set: every expected corner is matched by exactly one observed corner
+    match = [[j for j, c in enumerate(got) if g.vdist(a, c) <= TOL] for a in exp]
+    if len(got) != 8 or any(len(m) != 1 for m in match) or len({m[0] for m in match}) != 8:
         fails.append(("entity:corners", "entity:corners", "corners: expected %s, observed %s" % (exp, got)))
     return n, fails
 
@@ -1275,6 +1315,7 @@ def judge(b, results, route, res):
         res["constructs"][c.construct] = res["constructs"].get(c.construct, 0) + 1
         if c.nontrivial:
             res["nontrivial"] += 1
+            res["constructs_nontrivial"][c.construct] = res["constructs_nontrivial"].get(c.construct, 0) + 1
         if st[0] == "exc":
             res["violations"].append(
                 (
@@ -1315,6 +1356,7 @@ def check_item(item):
         "nontrivial": 0,
         "violations": [],
         "constructs": {},
+        "constructs_nontrivial": {},
         "unspecified": {},
         "skipped": {},
         "programs": 0,
@@ -1327,23 +1369,16 @@ def check_item(item):
             results = run_api(b)
             judge(b, results, "api", res)
             # laws of the algebra and of the reference entity itself
-            from scenic.syntax import veneer
-
             n, fails = algebra_laws(b)
-            ns = api_namespace()
-            old = veneer.currentScenario
-            veneer.currentScenario = _StubScenario()
-            try:
-                exec(b.prelude[0][0], ns)
-                n2, fails2 = entity_laws(b, ns)
-            finally:
-                veneer.currentScenario = old
+            n2, fails2 = entity_laws(b, results["__ns__"])
             res["evaluations"] += n + n2
             res["judgments"] += n + n2
             res["constructs"]["algebra laws"] = n
             res["constructs"]["entity laws"] = n2
             if b.x_tilt:
                 res["nontrivial"] += n + n2
+                res["constructs_nontrivial"]["algebra laws"] = n
+                res["constructs_nontrivial"]["entity laws"] = n2
             for key, sig, msg in fails + fails2:
                 res["violations"].append(
                     (sig, "%s [item %s: parent %s own %s (degrees)]" % (msg, item["idx"], item["xpar"], item["xown"]), {"item": item, "key": key, "signature": sig})
@@ -1420,7 +1455,7 @@ def run(ctx):
     work = src_items + items
 
     tot = {"evaluations": 0, "judgments": 0, "nontrivial": 0, "programs": 0, "src_evaluations": 0}
-    constructs, unspecified, skipped = {}, {}, {}
+    constructs, constructs_nt, unspecified, skipped = {}, {}, {}, {}
     samples = []
     seen = set()
     for r in ctx.pmap(check_item, work, chunksize=4):
@@ -1432,7 +1467,12 @@ def run(ctx):
         tot["programs"] += r["programs"]
         if r["programs"]:
             tot["src_evaluations"] += r["evaluations"]
-        for d, src in ((constructs, r["constructs"]), (unspecified, r["unspecified"]), (skipped, r["skipped"])):
+        for d, src in (
+            (constructs, r["constructs"]),
+            (constructs_nt, r["constructs_nontrivial"]),
+            (unspecified, r["unspecified"]),
+            (skipped, r["skipped"]),
+        ):
             for k, v in src.items():
                 d[k] = d.get(k, 0) + v
         if r["sample"] and len(samples) < 6:
@@ -1455,6 +1495,10 @@ def run(ctx):
     missing = [c for c in required if constructs.get(c, 0) == 0]
     if missing:
         raise HarnessError("vacuous: constructs never evaluated: %s" % missing)
+    # distance / angle / altitude depend on positions only: no rotation can matter there
+    flat = [c for c in required if c not in ("distance", "angle", "altitude") and constructs_nt.get(c, 0) == 0]
+    if flat:
+        raise HarnessError("vacuous: constructs never evaluated with a tilted / non-global frame: %s" % flat)
     if tot["nontrivial"] == 0:
         raise HarnessError("vacuous: no case in which a rotation matters")
     if tot["programs"] == 0 or tot["src_evaluations"] == 0:
@@ -1478,6 +1522,7 @@ def run(ctx):
         source_programs=tot["programs"],
         source_evaluations=tot["src_evaluations"],
         per_construct=dict(sorted(constructs.items())),
+        per_construct_rotation_matters=dict(sorted(constructs_nt.items())),
         unspecified=dict(sorted(unspecified.items())),
         skipped_touching=sum(skipped.values()),
         skipped=dict(sorted(skipped.items())),
